@@ -373,6 +373,15 @@ def guarded_evaluate(prop: 'Property', case: Any, ctx: 'Ctx') -> Outcome:
   except CaseTimeout:
     return Outcome(oracle_fail=f'the case did not terminate within {limit:.0f} s (the implementation hangs or '
                                f'loops on this input)', key=f'{prop.ID}/case-timeout', tags=('case-timeout',))
+  except (InfraError, subprocess.TimeoutExpired, KeyboardInterrupt):
+    raise
+  except Exception as e:   # the implementation behaved in a way the harness cannot interpret
+    import traceback
+    tb = traceback.extract_tb(e.__traceback__)
+    where = '; '.join(f'{os.path.basename(f.filename)}:{f.lineno}' for f in tb[-3:])
+    return Outcome(corr_fail=f'evaluating the case raised {type(e).__name__}: {str(e)[:300]} (at {where}); on the '
+                             f'unchanged tree this case evaluates without error, so the implementation no longer '
+                             f'behaves as the correspondence expects', tags=('evaluate-exception',))
   finally:
     signal.setitimer(signal.ITIMER_REAL, 0)
     signal.signal(signal.SIGALRM, old)
